@@ -75,6 +75,8 @@ func (f *family) refOK(sp hdrSpec, cur tracked, strictHigher bool) (bool, string
 		switch {
 		case strings.ContainsRune(sp.Sigs, sCopy):
 			why += "/duplicate-signature-counted"
+		case sp.validPower()*3 == sp.Vals.total()*2:
+			why += "/exactly-two-thirds"
 		case strings.ContainsRune(sp.Sigs, sForged):
 			why += "/forged-signature-counted"
 		case strings.ContainsRune(sp.Sigs, sNil):
